@@ -72,6 +72,10 @@ type loopInfo struct {
 	ordinal int
 	writes  map[string]bool
 	all     bool
+	// per component: the loop-invariant SSA values (slices / object pointers) through which all
+	// writes to it go; nil entry = some write is not of that simple form
+	via     map[string][]ssa.Value
+	viaBad  map[string]bool
 }
 
 type FnTrans struct {
@@ -807,7 +811,7 @@ func (t *FnTrans) findLoops() {
 			if s.Dominates(b) { // back edge b -> s
 				l := t.loops[s]
 				if l == nil {
-					l = &loopInfo{head: s, body: map[*ssa.BasicBlock]bool{s: true}, writes: map[string]bool{}}
+					l = &loopInfo{head: s, body: map[*ssa.BasicBlock]bool{s: true}, writes: map[string]bool{}, via: map[string][]ssa.Value{}, viaBad: map[string]bool{}}
 					t.loops[s] = l
 					heads = append(heads, s)
 				}
